@@ -14,6 +14,7 @@ use serde_json::{json, Value};
 
 pub mod components;
 pub mod gadgets;
+pub mod kernels;
 pub mod protocol;
 #[macro_use]
 pub mod widths;
